@@ -3,6 +3,6 @@ CONSTANTS
   Classes = {"accept", "imm", "multi"}
   MaxTrig = 2
   MaxPoll = 2
-  FixDrvDrop = FALSE
+  FixDrvDrop = TRUE
 SPECIFICATION GSpec
 INVARIANTS Emit
